@@ -30,7 +30,7 @@ import (
 // Case is one replayable execution.
 type Case struct {
 	Graph string `json:"graph"` // see Graph.String
-	Prog  string `json:"prog"`  // "R0 D1 C2 G0": CopyReference(obj 0), Redirect(obj 1, fresh), Copy(value of obj 2), CopyReference(stale reference to obj 0)
+	Prog  string `json:"prog"`  // "R0 D1 C2 G0 V:<n0>": CopyReference(obj 0), Redirect(obj 1, fresh), Copy(value of obj 2), CopyReference(stale reference to obj 0), Copy(hand-made pdf.Dict{"A": nil, "B": reference to obj 0})
 	Src   string `json:"src"`
 	Tgt   string `json:"tgt"`
 }
@@ -46,8 +46,10 @@ type space struct {
 	depth   int  // otherwise: all programs up to this many calls
 	dangOp  bool // the alphabet of calls includes CopyReference(dangling)
 	staleOp bool // ... and CopyReference(stale reference to object j) for every object
-	cfgs    [][2]string
-	verify  int // check the source fixture of every verify-th graph
+	// directOp: ... and Copy(hand-made direct value) for every value of directValues
+	directOp bool
+	cfgs     [][2]string
+	verify   int // check the source fixture of every verify-th graph
 }
 
 type found struct {
@@ -119,6 +121,9 @@ type flight struct {
 
 func caseSize(g Graph, prog []Op, src, tgt string) int {
 	sz := g.size()*100 + len(prog)*10
+	for _, op := range prog {
+		sz += len(op.D) // hand-made direct values: the shorter description first
+	}
 	for i, c := range srcConfigs {
 		if c == src {
 			sz += 3 * i
@@ -229,14 +234,19 @@ func (rn *runner) run(s *source, prog []Op, tgtCfg string) (*execution, bool) {
 func opsFor(sp space) []Op {
 	var ops []Op
 	for j := 0; j < sp.n; j++ {
-		ops = append(ops, Op{'R', j}, Op{'C', j}, Op{'D', j})
+		ops = append(ops, Op{K: 'R', J: j}, Op{K: 'C', J: j}, Op{K: 'D', J: j})
 	}
 	if sp.dangOp {
-		ops = append(ops, Op{'R', -1})
+		ops = append(ops, Op{K: 'R', J: -1})
 	}
 	if sp.staleOp {
 		for j := 0; j < sp.n; j++ {
-			ops = append(ops, Op{'G', j})
+			ops = append(ops, Op{K: 'G', J: j})
+		}
+	}
+	if sp.directOp {
+		for _, o := range directValues(sp.n) {
+			ops = append(ops, Op{K: 'V', D: o.String()})
 		}
 	}
 	return ops
@@ -247,7 +257,7 @@ func (rn *runner) search(sp space, s *source, tgtCfg string, ops []Op) {
 	r := rn.r
 	if sp.rooted {
 		r.State(1)
-		for _, op := range []Op{{'R', 0}, {'C', 0}} {
+		for _, op := range []Op{{K: 'R', J: 0}, {K: 'C', J: 0}} {
 			r.Trans(1)
 			r.State(1)
 			rn.run(s, []Op{op}, tgtCfg)
@@ -381,7 +391,7 @@ func (rn *runner) runSpace(sp space) {
 		progs = "CopyReference(obj 0) and Copy(value of obj 0); all objects reachable from obj 0"
 	}
 	r.Dim("space:"+sp.name, map[string]any{
-		"objects": sp.n, "alphabet": sp.alpha.name, "object_kinds": len(sp.alpha.kinds(sp.n)),
+		"objects": sp.n, "alphabet": sp.alpha.name, "object_kinds": len(sp.alpha.kinds(sp.n)), "calls": len(ops),
 		"item_kinds": len(sp.alpha.itemList(sp.n)), "nested_item_kinds": len(sp.alpha.nestedList(sp.n)), "stale_references": sp.alpha.stale,
 		"graphs_up_to_isomorphism": n, "programs": progs, "configurations": cfgNames,
 		"executions": rn.evals() - e0, "wall_s": time.Since(t0).Seconds(),
@@ -431,6 +441,10 @@ var aes256Pairs = pairs(srcConfigs, tgtConfigs[3:])
 func spaces(r *ev.Run) []space {
 	if r.Thorough() {
 		return []space{
+			{name: "1obj-filter-spellings-depth3", alpha: spell, n: 1, depth: 3, dangOp: true, cfgs: join(allPairs, noSeekPairs, rc4TgtPairs), verify: 1},
+			{name: "2obj-filter-spellings-rooted", alpha: spell, n: 2, rooted: true, cfgs: join(noAES256, noSeekPairs, rc4TgtPairs), verify: 1},
+			{name: "1obj-direct-values-depth3", alpha: lean, n: 1, depth: 3, dangOp: true, directOp: true, cfgs: [][2]string{{"none", "1.4"}, {"aes-128", "1.7-aes128"}}, verify: 1},
+			{name: "2obj-direct-values-depth2", alpha: lean, n: 2, depth: 2, directOp: true, cfgs: plainPair, verify: 1},
 			{name: "1obj-rich-depth3", alpha: rich, n: 1, depth: 3, dangOp: true, staleOp: true, cfgs: join(allPairs, noSeekPairs, rc4TgtPairs), verify: 1},
 			{name: "2obj-rich-depth3", alpha: rich, n: 2, depth: 3, dangOp: true, staleOp: true, cfgs: plainPair, verify: 1},
 			{name: "3obj-lean-depth3", alpha: lean, n: 3, depth: 3, cfgs: plainPair, verify: 8},
@@ -444,6 +458,9 @@ func spaces(r *ev.Run) []space {
 		}
 	}
 	return []space{
+		{name: "1obj-filter-spellings-depth2", alpha: spell, n: 1, depth: 2, dangOp: true, cfgs: join(noAES256, noSeekPairs, rc4TgtPairs), verify: 1},
+		{name: "1obj-filter-spellings-aes256", alpha: spell, n: 1, depth: 1, cfgs: aes256Pairs, verify: 1},
+		{name: "1obj-direct-values-depth2", alpha: lean, n: 1, depth: 2, dangOp: true, directOp: true, cfgs: [][2]string{{"none", "1.4"}, {"aes-128", "1.7-aes128"}}, verify: 1},
 		{name: "1obj-rich-depth3", alpha: rich, n: 1, depth: 3, dangOp: true, staleOp: true, cfgs: join(noAES256, noSeekPairs, rc4TgtPairs), verify: 1},
 		{name: "2obj-mid+stale-depth3", alpha: midStale, n: 2, depth: 3, dangOp: true, staleOp: true, cfgs: plainPair, verify: 1},
 		{name: "3obj-lean-depth2", alpha: lean, n: 3, depth: 2, cfgs: plainPair, verify: 8},
@@ -539,6 +556,10 @@ func Run(tier string) int {
 		"[s] <s> [0] <0> ...": "nested direct array / dictionary holding a string or a reference to an object of the graph",
 	})
 	r.Dim("stream_variants", stmNames)
+	r.Dim("filter_spelling_family", "stream variants 5..: every one-filter chain X in {FlateDecode, ASCIIHexDecode, Crypt (Identity)} as /Filter /X and as /Filter [/X], each with /DecodeParms absent, a dictionary, a one-element array (a bare name with an array of parameters and an array with a bare dictionary cannot be decoded: only the rest of the object is judged); [/Crypt /FlateDecode] and [/Crypt /ASCIIHexDecode] with /DecodeParms absent and a two-element array; a stream that starts with /Crypt is stored unencrypted in an encrypted source")
+	r.Dim("filter_spelling_variants", len(spellings))
+	r.Dim("direct_value_family", "call V = Copy(hand-made direct value): arrays and dictionaries with one item out of {nil, pdf.Array(nil), pdf.Dict(nil), integer, reference to an object of the graph, [nil] [pdf.Array(nil)] [pdf.Dict(nil)] <</N nil>> <</N pdf.Array(nil)>> <</N pdf.Dict(nil)>>}, two items out of the first five kinds in both orders, and the bare values nil, pdf.Array(nil), pdf.Dict(nil); a nil entry or element counts as null / absent, a typed nil container as null or an empty container of its type")
+	r.Dim("direct_values_1_object", len(directValues(1)))
 	for _, sp := range spaces(r) {
 		if r.Expired() || rn.hung.Load() {
 			break
